@@ -103,6 +103,10 @@ type FuncEnc struct {
 	stableFV         map[*ssa.FreeVar]string
 	inlineDepth      int
 	loopConsts       map[string][4]string
+	strView          map[ssa.Value]strView
+	segatLemma       bool
+	Cache            map[string]any
+	curRet           *ssa.Return
 	ErrFormats       map[string]string // fmt.Errorf format literal -> literal symbol (ghost errfmt)
 	BodyErrs         []string          // "request body could not be read/decoded" conditions seen so far
 }
@@ -246,6 +250,9 @@ func (e *FuncEnc) preservePrivate(key, old, nu string) {
 		}
 	}
 }
+
+// strView: a string value that is the slice root[lo:hi] of another string.
+type strView struct{ root, lo, hi string }
 
 type leafAddr struct {
 	key  string
@@ -536,6 +543,8 @@ func (e *FuncEnc) init() {
 	e.globals = map[string]bool{}
 	e.closures = map[*ssa.MakeClosure]bool{}
 	e.stableFV = map[*ssa.FreeVar]string{}
+	e.strView = map[ssa.Value]strView{}
+	e.Cache = map[string]any{}
 	e.ErrFormats = map[string]string{}
 	e.deferReach = map[*ssa.Defer]string{}
 }
